@@ -76,6 +76,25 @@ class TInterp(Interp):
         return Interp.e_UnaryOperator(self, n, env)
 
 
+class NullInterp(TInterp):
+    """TInterp that records dereferences of a pointer that is the concrete NULL on the path (`p->f` / `*p` with p == 0):
+    self.null_derefs = [(line, rendering of the expression, trail of the path)]; the path itself is dropped as usual"""
+
+    def __init__(self, *a, **k):
+        TInterp.__init__(self, *a, **k)
+        self.null_derefs = []
+
+    def deref_target(self, b, n):
+        v = self.settle(b) if isinstance(b, View) else b
+        if isinstance(v, int) and not isinstance(v, bool) and v == 0:
+            try:
+                src = n.src()
+            except Exception:
+                src = '?'
+            self.null_derefs.append((n.line, src, list(self.ctx.trail)))
+        return TInterp.deref_target(self, b, n)
+
+
 # ------------------------------------------------------------------ terms ---
 def settle(it, v):
     return it.settle(v) if isinstance(v, View) else v
